@@ -1,11 +1,20 @@
-// Command dumpv3 prints the descriptor tree embedded in deps.dev/api/v3.
+// Command dumpv3 prints the descriptor tree embedded in deps.dev/api/v3, or with the argument "grpc" what the
+// generated gRPC bindings do when invoked.
 package main
 
 import (
 	"os"
 
 	pb "deps.dev/api/v3"
+	"google.golang.org/grpc"
+	"verif/harness/grpcprobe"
 	"verif/harness/ptree"
 )
 
-func main() { os.Stdout.Write(ptree.FromDescriptor(pb.File_api_proto).JSON()) }
+func main() {
+	if len(os.Args) > 1 && os.Args[1] == "grpc" {
+		os.Stdout.Write(grpcprobe.Probe(pb.Insights_ServiceDesc, func(cc grpc.ClientConnInterface) any { return pb.NewInsightsClient(cc) }, pb.UnimplementedInsightsServer{}))
+		return
+	}
+	os.Stdout.Write(ptree.FromDescriptor(pb.File_api_proto).JSON())
+}
